@@ -468,7 +468,9 @@ def cases(rng, tier):
                 # process-wide library state, found by a dry run in a forked child)
                 o["interrupt"] = int(10 ** rng.uniform(0, 5.6)) if rng.random() < 0.4 else {"guided": round(rng.random(), 3)}
         yield {"kind": "history", "fs": "sim", "ops": ops_i, "faults": [], "real_dfa": True}
-    if rng.random() < (0.12 if tier == "quick" else 0.06):
+    want_real = rng.random() < (0.12 if tier == "quick" else 0.06)
+    if want_real and _STATE.get("last_ok", True):
+        # (only when the history itself is clean: a violating history is cut short)
         # validation of the stub: the same history (a power loss cannot be staged
         # on a real directory, so without those ops) on simfs and on a real
         # temporary directory must give the same observations
@@ -476,7 +478,8 @@ def cases(rng, tier):
         if len(ops2) != len(ops):
             yield {"kind": "history", "fs": "sim", "ops": ops2, "faults": []}
             base_obs = _STATE.get("last_obs")
-        yield {"kind": "history", "fs": "real", "ops": ops2, "faults": [], "expect_obs": base_obs}
+        if _STATE.get("last_ok", True):
+            yield {"kind": "history", "fs": "real", "ops": ops2, "faults": [], "expect_obs": base_obs}
     if rng.random() < 0.35:
         yield gen_concurrent(rng, tier)
     short = len(ops) <= 6
@@ -933,6 +936,7 @@ def _execute_history(case):
                 simfs.remove_seams(mod, sm)
         clear_memos()
     if not real and not case.get("faults") and not case.get("real_dfa"):
+        _STATE["last_ok"] = not violations
         _STATE["last_trace"] = list(fs.trace)
         _STATE["last_obs"] = core.canon(obs)
     if real and case.get("expect_obs") is not None and not violations:
